@@ -229,11 +229,11 @@ Proof.
       (split; [lra | split; [lra | auto]]).
 Qed.
 
-(* the correction that is in force when loop number l is processed: that of the nearest earlier loop
-   whose offset was not set by the user (0 if there is none) *)
-Fixpoint prev_of (loops : list loopin) (cp : nat -> Q) (l : nat) : nat -> Q :=
+(* the correction that is in force when loop number l is processed: that of the nearest earlier loop that was
+   not skipped (0 if there is none) *)
+Fixpoint prev_of (fx : bool) (loops : list loopin) (cp : nat -> Q) (l : nat) : nat -> Q :=
   match l, loops with
-  | S l', L :: rest => prev_of rest (if l_user L then cp else corr_of (l_offset L) (l_delay L)) l'
+  | S l', L :: rest => prev_of fx rest (if skips fx L cp then cp else eff_corr fx L) l'
   | _, _ => cp
   end.
 
@@ -250,28 +250,34 @@ Qed.
 Lemma mapi_from_length {A B} (f : nat -> A -> B) l : forall j0, length (mapi_from j0 f l) = length l.
 Proof. induction l; intros; simpl; auto. Qed.
 
-Theorem update_loops_spec pi : 0 < pi -> forall loops cp l L out,
-  nth_error loops l = Some L -> nth_error (update_loops pi loops cp) l = Some out ->
+Theorem update_loops_spec fx pi : 0 < pi -> forall loops cp l L out,
+  nth_error loops l = Some L -> nth_error (update_loops fx pi loops cp) l = Some out ->
   length out = length (l_phis L) /\
-  if l_user L then out = l_phis L
+  if skips fx L (prev_of fx loops cp l) then out = l_phis L
   else forall j y, nth_error out j = Some y ->
          - (1 # 2) * pi <= y /\ y <= (1 # 2) * pi /\
          exists phi, nth_error (l_phis L) j = Some phi /\
-           cong_pi pi (phi + corr_of (l_offset L) (l_delay L) j - prev_of loops cp l j) y.
+           cong_pi pi (phi + eff_corr fx L j - prev_of fx loops cp l j) y.
 Proof.
   intros Hpi loops. induction loops as [|L0 rest IH]; intros cp l L out HL Hout.
   - destruct l; discriminate.
   - destruct l as [|l]; simpl in HL, Hout.
-    + inversion HL; subst L0. destruct (l_user L) eqn:Eu; simpl in Hout; inversion Hout; subst out.
+    + inversion HL; subst L0. simpl prev_of. destruct (skips fx L cp) eqn:Eu; simpl in Hout; inversion Hout; subst out.
       * auto.
       * split; [apply mapi_from_length|]. intros j y Hy.
         apply mapi_from_nth in Hy as [phi [Hphi Hy]]. simpl in Hy. subst y.
-        pose proof (fix_phase_spec pi (phi + corr_of (l_offset L) (l_delay L) j - cp j) Hpi) as H.
+        pose proof (fix_phase_spec pi (phi + eff_corr fx L j - cp j) Hpi) as H.
         simpl in H. destruct H as [H1 [H2 H3]]. repeat split; auto. exists phi; split; auto.
-    + destruct (l_user L0) eqn:Eu; simpl in Hout.
-      * specialize (IH cp l L out HL Hout). simpl. rewrite Eu. exact IH.
-      * specialize (IH _ l L out HL Hout). simpl. rewrite Eu. exact IH.
+    + simpl prev_of. destruct (skips fx L0 cp) eqn:Eu; simpl in Hout.
+      * exact (IH cp l L out HL Hout).
+      * exact (IH _ l L out HL Hout).
 Qed.
+
+(* the two variants differ only on user-set loops: with fx = false a user-set loop is always returned unchanged *)
+Lemma skips_old L cp : skips false L cp = l_user L.
+Proof. unfold skips. simpl. apply andb_true_r. Qed.
+Lemma eff_corr_old L : eff_corr false L = corr_of (l_offset L) (l_delay L).
+Proof. reflexivity. Qed.
 
 (* the range correction is not always a multiple of 2 pi: a phase of 2 (with pi = 3, no offsets) is moved by -pi *)
 Theorem fix_phase_pi_shift_exists :
@@ -286,6 +292,8 @@ Close Scope Q_scope.
 
 (* ------------------------------------------------------------------------------------------ *)
 (** Borealis.compile loop-offset insertion *)
+Ltac dfx := match goal with |- (if ?b then _ else _) = _ -> _ => destruct b; [|discriminate] end.
+
 Inductive subseq {A} : list A -> list A -> Prop :=
 | sub_nil l : subseq [] l
 | sub_take x l1 l2 : subseq l1 l2 -> subseq (x :: l1) (x :: l2)
@@ -295,20 +303,21 @@ Lemma subseq_refl {A} (l : list A) : subseq l l.
 Proof. induction l; constructor; auto. Qed.
 
 (* the source commands survive, in order *)
-Theorem insert_offsets_subseq circ : forall seq out uo,
-  insert_offsets circ seq = Some (out, uo) -> subseq seq out.
+Theorem insert_offsets_subseq fx circ : forall seq out uo,
+  insert_offsets fx circ seq = Some (out, uo) -> subseq seq out.
 Proof.
   induction circ as [|c circ IH]; intros seq out uo; simpl.
   - intros H; inversion H; subst. apply subseq_refl.
-  - destruct seq as [|s seq]; [intros H; inversion H; constructor|].
+  - destruct seq as [|s seq].
+    { destruct fx; [dfx|]; intros H; inversion H; constructor. }
     destruct (b_off c).
     + destruct (ops_equal c s).
-      * destruct (insert_offsets circ seq) as [[o u]|] eqn:E; [|discriminate].
+      * destruct (insert_offsets fx circ seq) as [[o u]|] eqn:E; [|discriminate].
         intros H; inversion H; subst. constructor. eapply IH; eauto.
-      * destruct (insert_offsets circ (s :: seq)) as [[o u]|] eqn:E; [|discriminate].
+      * destruct (insert_offsets fx circ (s :: seq)) as [[o u]|] eqn:E; [|discriminate].
         intros H; inversion H; subst. apply sub_skip. eapply IH; eauto.
     + destruct (ops_equal c s); [|discriminate].
-      destruct (insert_offsets circ seq) as [[o u]|] eqn:E; [|discriminate].
+      destruct (insert_offsets fx circ seq) as [[o u]|] eqn:E; [|discriminate].
       intros H; inversion H; subst. constructor. eapply IH; eauto.
 Qed.
 
@@ -319,16 +328,19 @@ Proof.
 Qed.
 
 (* the result matches the layout position by position (type and wires), as far as the layout goes *)
-Theorem insert_offsets_matches circ : forall seq out uo,
-  insert_offsets circ seq = Some (out, uo) ->
+Theorem insert_offsets_matches fx circ : forall seq out uo,
+  insert_offsets fx circ seq = Some (out, uo) ->
   length circ <= length out /\
   forall i c, nth_error circ i = Some c -> exists o, nth_error out i = Some o /\ ops_equal c o = true.
 Proof.
   induction circ as [|c circ IH]; intros seq out uo; simpl.
   - intros H; inversion H; subst. split; [lia|]. intros i c Hc; destruct i; discriminate.
   - destruct seq as [|s seq].
-    { intros H; inversion H; subst. split; [simpl; lia|]. intros i c0 Hc. exists c0; split; auto. apply ops_equal_refl. }
-    assert (Hstep : forall o u hd, insert_offsets circ o = Some u -> ops_equal c hd = true ->
+    { assert (Hb : Some (c :: circ, uo) = Some (out, uo) -> length (c :: circ) <= length out /\
+              forall i c0, nth_error (c :: circ) i = Some c0 -> exists o, nth_error out i = Some o /\ ops_equal c0 o = true).
+      { intros H; inversion H; subst. split; [simpl; lia|]. intros i c0 Hc. exists c0; split; auto. apply ops_equal_refl. }
+      destruct fx; [dfx|]; intros H; inversion H; subst; apply Hb; reflexivity. }
+    assert (Hstep : forall o u hd, insert_offsets fx circ o = Some u -> ops_equal c hd = true ->
               length (c :: circ) <= length (hd :: fst u) /\
               forall i c0, nth_error (c :: circ) i = Some c0 ->
                 exists o0, nth_error (hd :: fst u) i = Some o0 /\ ops_equal c0 o0 = true).
@@ -336,25 +348,71 @@ Proof.
       intros [|i] c0 Hc; simpl in *; [inversion Hc; subst; eauto | auto]. }
     destruct (b_off c).
     + destruct (ops_equal c s) eqn:Eq.
-      * destruct (insert_offsets circ seq) as [[o u]|] eqn:E; [|discriminate].
+      * destruct (insert_offsets fx circ seq) as [[o u]|] eqn:E; [|discriminate].
         intros H; inversion H; subst. apply (Hstep _ _ s E Eq).
-      * destruct (insert_offsets circ (s :: seq)) as [[o u]|] eqn:E; [|discriminate].
+      * destruct (insert_offsets fx circ (s :: seq)) as [[o u]|] eqn:E; [|discriminate].
         intros H; inversion H; subst. apply (Hstep _ _ c E (ops_equal_refl c)).
     + destruct (ops_equal c s) eqn:Eq; [|discriminate].
-      destruct (insert_offsets circ seq) as [[o u]|] eqn:E; [|discriminate].
+      destruct (insert_offsets fx circ seq) as [[o u]|] eqn:E; [|discriminate].
       intros H; inversion H; subst. apply (Hstep _ _ s E Eq).
 Qed.
 
 (* nothing is inserted or rejected when the program already is the layout *)
-Theorem insert_offsets_id circ : exists uo, insert_offsets circ circ = Some (circ, uo).
+Theorem insert_offsets_id fx circ : exists uo, insert_offsets fx circ circ = Some (circ, uo).
 Proof.
   induction circ as [|c circ [uo IH]]; simpl; [eauto|].
   rewrite ops_equal_refl, IH. destruct (b_off c); eauto.
 Qed.
 
-Theorem insert_offsets_full circ seq out uo : insert_offsets circ seq = Some (out, uo) ->
+Theorem insert_offsets_full fx circ seq out uo : insert_offsets fx circ seq = Some (out, uo) ->
   subseq seq out /\ length circ <= length out /\
   forall i c, nth_error circ i = Some c -> exists o, nth_error out i = Some o /\ ops_equal c o = true.
 Proof.
-  intros H. split; [exact (insert_offsets_subseq circ seq out uo H) | exact (insert_offsets_matches circ seq out uo H)].
+  intros H. split; [exact (insert_offsets_subseq fx circ seq out uo H) | exact (insert_offsets_matches fx circ seq out uo H)].
+Qed.
+
+(* with the repair, _user_offsets has exactly one entry per loop-offset gate of the layout, whatever the program *)
+Theorem insert_offsets_uo_complete circ : forall seq out uo,
+  insert_offsets true circ seq = Some (out, uo) -> length uo = length (filter b_off circ).
+Proof.
+  induction circ as [|c circ IH]; intros seq out uo; simpl.
+  - intros H; inversion H; reflexivity.
+  - destruct seq as [|s seq].
+    { dfx. intros H; inversion H; subst. rewrite map_length. reflexivity. }
+    destruct (b_off c) eqn:Eo.
+    + destruct (ops_equal c s).
+      * destruct (insert_offsets true circ seq) as [[o u]|] eqn:E; [|discriminate].
+        intros H; inversion H; subst. simpl. f_equal. eapply IH; eauto.
+      * destruct (insert_offsets true circ (s :: seq)) as [[o u]|] eqn:E; [|discriminate].
+        intros H; inversion H; subst. simpl. f_equal. eapply IH; eauto.
+    + destruct (ops_equal c s); [|discriminate].
+      destruct (insert_offsets true circ seq) as [[o u]|] eqn:E; [|discriminate].
+      intros H; inversion H; subst. eapply IH; eauto.
+Qed.
+
+(* without it, a program that stops early loses entries: layout S R(off) M, program S *)
+Theorem insert_offsets_uo_incomplete_old :
+  exists circ seq out uo, insert_offsets false circ seq = Some (out, uo) /\ length uo < length (filter b_off circ).
+Proof.
+  exists [mkB 0 [1] false 0 false; mkB 1 [1] true 1 true; mkB 3 [0] false 2 false], [mkB 0 [1] false 10 false]. eexists. eexists.
+  split; [reflexivity | simpl; lia].
+Qed.
+
+(* ------------------------------------------------------------------------------------------ *)
+(** Xunitary assembly *)
+Lemma net_map_shift {G M} (mul : M -> M -> M) (sem_lo sem_hi : G -> M) (shift : G -> G) :
+  (forall g, sem_hi (shift g) = sem_lo g) ->
+  forall l acc, fold_left (fun a g => mul (sem_hi g) a) (map shift l) acc = fold_left (fun a g => mul (sem_lo g) a) l acc.
+Proof. intros H l. induction l as [|g l IH]; intros acc; simpl; auto. rewrite H. apply IH. Qed.
+
+Theorem xunitary_shape_chain :
+  forall (G M : Type) (mul : M -> M -> M) (one : M) (sem_lo sem_hi : G -> M)
+         (shift : G -> G) (mesh : M -> list G) (sq : list G) (meas : G) (U : M),
+    (forall V, net mul one sem_lo (mesh V) = V) ->
+    (forall g, sem_hi (shift g) = sem_lo g) ->
+    xunitary_assemble sq (mesh U) shift meas = sq ++ mesh U ++ map shift (mesh U) ++ [meas] /\
+    net mul one sem_lo (mesh U) = U /\ net mul one sem_hi (map shift (mesh U)) = U.
+Proof.
+  intros G M mul one sem_lo sem_hi shift mesh sq meas U Hmesh Hshift.
+  split; [reflexivity|]. split; [apply Hmesh|]. unfold net. rewrite (net_map_shift mul sem_lo sem_hi shift Hshift). apply Hmesh.
 Qed.
